@@ -34,12 +34,19 @@ def load_module(pid):
 
 # ------------------------------------------------------------ findings ----
 def load_findings(pid):
-    path = os.path.join(HERE, "known_findings.json")
-    if not os.path.exists(path):
-        return []
-    data = load_json(path)
-    return [e for e in data.get("entries", [])
-            if e.get("property") == pid and e.get("status") == "known"]
+    paths = [os.path.join(HERE, "known_findings.json")]
+    d = os.path.join(HERE, "known_findings.d")
+    if os.path.isdir(d):
+        paths += [os.path.join(d, n) for n in sorted(os.listdir(d))
+                  if n.endswith(".json")]
+    out = []
+    for path in paths:
+        if not os.path.exists(path):
+            continue
+        data = load_json(path)
+        out += [e for e in data.get("entries", [])
+                if e.get("property") == pid and e.get("status") == "known"]
+    return out
 
 
 def match_known(sig, known):
